@@ -711,6 +711,12 @@ func (w *vfWorld) runPlan(steps []vfStep) {
 				group = append(group, p)
 			}
 		}
+		w.groupHasRightInject = false
+		for _, p := range group {
+			if p.intent != nil && p.intent.Inject != nil && p.intent.Inject.Right && p.step.Par != 0 {
+				w.groupHasRightInject = true
+			}
+		}
 		var names []string
 		var fns []func()
 		for _, p := range group {
